@@ -18,8 +18,10 @@ import (
 	"google.golang.org/genproto/googleapis/api/annotations"
 	"google.golang.org/genproto/googleapis/api/serviceconfig"
 	"google.golang.org/grpc"
+	"google.golang.org/grpc/codes"
 	"google.golang.org/grpc/metadata"
 	"google.golang.org/grpc/stats"
+	"google.golang.org/grpc/status"
 	"google.golang.org/protobuf/encoding/protojson"
 	"google.golang.org/protobuf/proto"
 	"google.golang.org/protobuf/reflect/protodesc"
@@ -435,6 +437,7 @@ type env struct {
 	regPanic map[string]*mon.PanicInfo
 	srv      *wire.Server // real listener, started on first use (WebSocket cases)
 	backend  *backend.Backend
+	backend2 *backend.Backend
 }
 
 // server starts (once) a real loopback listener in front of the mux.
@@ -453,6 +456,10 @@ func (e *env) close() {
 	if e.backend != nil {
 		e.backend.Close()
 		e.backend = nil
+	}
+	if e.backend2 != nil {
+		e.backend2.Close()
+		e.backend2 = nil
 	}
 	if e.srv != nil {
 		e.srv.Close()
@@ -625,9 +632,12 @@ func envFor(rule RuleSpec, kind string) (*env, error) {
 // that the independent decoder can tell that the codec named by the
 // Content-Type really produced the body.
 const (
-	muxCustom     = "custom-codecs"
-	ctAltJSON     = "application/x-vf-json"
-	ctAltProto    = "application/x-vf-proto"
+	muxCustom  = "custom-codecs"
+	ctAltJSON  = "application/x-vf-json"
+	ctAltProto = "application/x-vf-proto"
+	// ctAltEarly sorts before every built-in media type; like the other two
+	// its codec implements Codec but not StreamCodec (unary only)
+	ctAltEarly    = "application/a-vf-json"
 	altJSONMagic  = "//vf-json\n"
 	altProtoMagic = "VFP1"
 )
@@ -671,8 +681,37 @@ func buildProxied(fd protoreflect.FileDescriptor, _ []string) (*env, error) {
 		b.Close()
 		return nil, fmt.Errorf("RegisterConn: %w", rerr)
 	}
-	e.mux, e.backend = mux, b
+	// a second provider of the same services whose handlers answer Unavailable
+	// (a draining / restarting replica)
+	var down []backend.Svc
+	for i := 0; i < fd.Services().Len(); i++ {
+		down = append(down, backend.Svc{SD: fd.Services().Get(i), Impl: unavailableImpl{}})
+	}
+	b2, err := backend.Start("transcode-down", true, down...)
+	if err != nil {
+		b.Close()
+		return nil, err
+	}
+	if pi := mon.Catch(func() { rerr = mux.RegisterConn(ctx, b2.CC) }); pi != nil || rerr != nil {
+		b.Close()
+		b2.Close()
+		if pi != nil {
+			return nil, fmt.Errorf("RegisterConn (second provider) panicked: %s", pi.Value)
+		}
+		return nil, fmt.Errorf("RegisterConn (second provider): %w", rerr)
+	}
+	e.mux, e.backend, e.backend2 = mux, b, b2
 	return e, nil
+}
+
+type unavailableImpl struct{}
+
+func (unavailableImpl) Unary(context.Context, protoreflect.MethodDescriptor, proto.Message) (proto.Message, error) {
+	return nil, status.Error(codes.Unavailable, "replica is draining")
+}
+
+func (unavailableImpl) Stream(protoreflect.MethodDescriptor, grpc.ServerStream) error {
+	return status.Error(codes.Unavailable, "replica is draining")
 }
 
 // muxWithOptions: a mux built with StatsOption and pass-through unary /
@@ -810,7 +849,8 @@ func muxOptions(kind string) []larking.MuxOption {
 			}),
 		}
 	case muxCustom:
-		return []larking.MuxOption{larking.CodecOption(ctAltJSON, altJSONCodec{}), larking.CodecOption(ctAltProto, altProtoCodec{})}
+		return []larking.MuxOption{larking.CodecOption(ctAltJSON, altJSONCodec{}), larking.CodecOption(ctAltProto, altProtoCodec{}),
+			larking.CodecOption(ctAltEarly, altJSONCodec{})}
 	case muxReplaced:
 		return []larking.MuxOption{larking.CodecOption("application/json", altJSONCodec{}), larking.CodecOption("application/protobuf", altProtoCodec{})}
 	}
@@ -821,7 +861,7 @@ func muxOptions(kind string) []larking.MuxOption {
 // given kind puts in front of its output ("" for the built-in codecs).
 func markOf(kind, ct string) string {
 	switch {
-	case kind == muxCustom && ct == ctAltJSON, kind == muxReplaced && ct == "application/json":
+	case kind == muxCustom && (ct == ctAltJSON || ct == ctAltEarly), kind == muxReplaced && ct == "application/json":
 		return altJSONMagic
 	case kind == muxCustom && ct == ctAltProto, kind == muxReplaced && ct == "application/protobuf":
 		return altProtoMagic
@@ -834,12 +874,12 @@ func (e *env) mediaTypes() []string { return mediaTypesOf(e.kind) }
 
 func mediaTypesOf(kind string) []string {
 	if kind == muxCustom {
-		return []string{"application/json", "application/octet-stream", "application/protobuf", ctAltJSON, ctAltProto}
+		return []string{ctAltEarly, "application/json", "application/octet-stream", "application/protobuf", ctAltJSON, ctAltProto}
 	}
 	return builtinTypes
 }
 
-func isCustomType(ct string) bool { return ct == ctAltJSON || ct == ctAltProto }
+func isCustomType(ct string) bool { return ct == ctAltJSON || ct == ctAltProto || ct == ctAltEarly }
 
 type altJSONCodec struct{}
 
